@@ -123,6 +123,9 @@ func (server *Server) registerSugarExecutors() {
 		}
 		// Converts negative indexes, and clamps the range to the string as Redis does.
 		strLen := len(getVal)
+		if start < 0 && end < 0 && end < start {
+			return NewBulkMessage(""), nil
+		}
 		if start < 0 {
 			start = strLen + start
 		}
